@@ -14,6 +14,7 @@ use crate::util::B;
 use crate::{ensure, fail};
 use proptest::collection::vec;
 use proptest::prelude::*;
+use seq_io::{fasta, fastq};
 use serde_derive::{Deserialize, Serialize};
 
 #[derive(Clone, Debug, Serialize, Deserialize, Hash)]
@@ -28,6 +29,9 @@ pub struct Case {
     pub ek: EK,
     /// replay files of a single (case, k) pair set this; generated cases enumerate all k
     pub only_k: Option<u32>,
+    /// what the injected io::Error carries (text, a seq_io error, another io::Error, nothing): see Script::payload
+    #[serde(default)]
+    pub payload: u8,
 }
 
 pub struct Faults;
@@ -37,7 +41,7 @@ fn same_step(a: &crate::interp::Step, b: &crate::interp::Step) -> bool {
 }
 
 fn run(c: &Case, m: &Model, interrupts: &[u16], fault: Option<(u32, EK)>) -> Trace {
-    let script = Script { chunks: c.chunks.clone(), interrupts: interrupts.to_vec(), fault, sticky: false };
+    let script = Script { chunks: c.chunks.clone(), interrupts: interrupts.to_vec(), fault, sticky: false, payload: c.payload };
     let spec = RunSpec { input: &c.input, cap: c.cap, policy: c.policy, script: &script, ops: &c.ops, model: m };
     run_ops_fmt(c.format, &spec)
 }
@@ -53,8 +57,8 @@ impl Prop for Faults {
                 Format::Fasta => prop_oneof![4 => gen::fasta_doc_with(4, 8), 1 => gen::byte_soup(f)].boxed(),
                 Format::Fastq => prop_oneof![3 => gen::fastq_valid_doc(4), 2 => gen::fastq_doc_with(4, false), 1 => gen::byte_soup(f)].boxed(),
             };
-            (gen::input_and_cap(f, input), gen::policy_permissive(), gen::chunks(), gen::interrupts(), vec(super::c04::op(6), 1..14), gen::ek())
-                .prop_map(move |((input, cap), policy, chunks, interrupts, ops, ek)| Case { format: f, input, cap, policy, chunks, interrupts, ops, ek, only_k: None })
+            (gen::input_and_cap(f, input), gen::policy_permissive(), gen::chunks(), gen::interrupts(), vec(super::c04::op(6), 1..14), gen::ek(), gen::payload())
+                .prop_map(move |((input, cap), policy, chunks, interrupts, ops, ek, payload)| Case { format: f, input, cap, policy, chunks, interrupts, ops, ek, only_k: None, payload })
         };
         boxed(prop_oneof![per(Format::Fasta), per(Format::Fastq)])
     }
@@ -148,6 +152,13 @@ impl Prop for Faults {
             };
             ctx.class(&format!("fault during {}", during));
             ctx.class(&format!("fault kind {}", ek.name()));
+            ctx.class(match c.payload % 5 {
+                1 => "error payload: a fasta::Error",
+                2 => "error payload: a fastq::Error",
+                3 => "error payload: another io::Error",
+                4 => "error without payload",
+                _ => "error payload: text",
+            });
             nontrivial = true;
             let ok = match &step.ev {
                 Ev::Rec(o) | Ev::OwnedRec(o) => *o == Out::Err(want.clone()),
@@ -197,13 +208,114 @@ impl Prop for Faults {
     }
 }
 
-pub const RULE: &str = "cases = (format, input, capacity, permissive policy, chunk script, Interrupted pattern, history of 1..13 operations incl. seeks). For each case: (a) the run with the Interrupted pattern must equal the run without it step by step (events, positions, set contents) and satisfy the strict cursor model; (b) fault enumeration: for EVERY source call index k of the fault-free run (reads and seeks) the run is repeated with a one-shot failure of kind ALL_KINDS[(k+offset) mod 10] at call k; the API call during which call k happens must return Err(Io) with exactly that kind (for into_records(): the leading records, then that error) and all earlier steps must equal the fault-free run. evaluations counts cases plus (case, k) pairs; distinct_nontrivial counts distinct cases with >= 1 enumerated fault point.";
+pub const RULE: &str = "cases = (format, input, capacity, permissive policy, chunk script, Interrupted pattern, history of 1..13 operations incl. seeks). For each case: (a) the run with the Interrupted pattern must equal the run without it step by step (events, positions, set contents) and satisfy the strict cursor model; (b) fault enumeration: for EVERY source call index k of the fault-free run (reads and seeks) the run is repeated with a one-shot failure of kind ALL_KINDS[(k+offset) mod 10] at call k; the API call during which call k happens must return Err(Io) with exactly that kind (for into_records(): the leading records, then that error) and all earlier steps must equal the fault-free run. evaluations counts cases plus (case, k) pairs; distinct_nontrivial counts distinct cases with >= 1 enumerated fault point. The injected io::Error carries a text, a fasta::Error, a fastq::Error, another io::Error or nothing as payload. Sub-check os-errors: real failures of a File opened with from_path / from_path_with_capacity (reading a directory; seeking to offset u64::MAX): the reader returns Error::Io with the kind the operating system reports for the same operation on a plain File.";
+
+// ------------------------------------------------------------------------------------------------
+// real operating-system failures of a File opened through from_path()
+
+#[derive(Clone, Debug, Serialize, Deserialize, Hash)]
+pub struct OsCase {
+    pub format: Format,
+    /// None = from_path, Some(c) = from_path_with_capacity(c)
+    pub cap: Option<usize>,
+    /// false: the path is a directory (every read fails); true: seek to byte offset u64::MAX (the seek fails)
+    pub seek: bool,
+}
+
+pub struct OsErrors;
+
+impl Prop for OsErrors {
+    type Case = OsCase;
+    fn strategy(&self, _tier: Tier) -> BoxedStrategy<OsCase> {
+        boxed((gen::format(), prop::option::of(prop_oneof![Just(3usize), 4usize..200, Just(65536usize)]), any::<bool>()).prop_map(|(format, cap, seek)| OsCase { format, cap, seek }))
+    }
+    fn check(&self, c: &OsCase, ctx: &mut Ctx) -> CheckResult {
+        use std::io::{Read, Seek, SeekFrom};
+        let f = fmt_name(c.format);
+        ctx.nontrivial(c, c);
+        let base = std::env::temp_dir().join(format!("seqio_verif_c14_{}_{:?}", std::process::id(), std::thread::current().id()).replace(|ch: char| !ch.is_ascii_alphanumeric() && ch != '_', "_"));
+        let _ = std::fs::remove_dir_all(&base);
+        if let Err(e) = std::fs::create_dir_all(&base) {
+            fail!("harness/tempdir", "cannot create {}: {}", base.display(), e);
+        }
+        let file = base.join("three_records");
+        let text: &[u8] = if c.format == Format::Fasta { b">a\nACGT\n>b\nGG\n>c\nT\n" } else { b"@a\nACGT\n+\nIIII\n@b\nGG\n+\nII\n@c\nT\n+\nI\n" };
+        if let Err(e) = std::fs::write(&file, text) {
+            fail!("harness/tempfile", "cannot write {}: {}", file.display(), e);
+        }
+        let target = if c.seek { file.clone() } else { base.clone() };
+        // what the operating system answers to the same operation on a plain File
+        let expected = {
+            let mut fh = match std::fs::File::open(&target) {
+                Ok(fh) => fh,
+                Err(e) => fail!("harness/os-errors", "cannot open {}: {}", target.display(), e),
+            };
+            let r = if c.seek { fh.seek(SeekFrom::Start(u64::MAX)).map(|_| ()) } else { fh.read(&mut [0u8; 16]).map(|_| ()) };
+            match r {
+                Err(e) => e.kind(),
+                Ok(()) => {
+                    // this platform does not fail here: nothing to check
+                    ctx.class("skipped: the operating system does not fail this operation");
+                    let _ = std::fs::remove_dir_all(&base);
+                    return Ok(());
+                }
+            }
+        };
+        ctx.class(if c.seek { "failing seek of a File (offset u64::MAX)" } else { "failing read of a File (directory)" });
+        macro_rules! go {
+            ($m:ident) => {{
+                let rdr = match c.cap {
+                    None => $m::Reader::from_path(&target),
+                    Some(k) => $m::Reader::from_path_with_capacity(&target, k),
+                };
+                let mut rdr = match rdr {
+                    Ok(r) => r,
+                    Err(e) => fail!(format!("{}/os-errors/open-failed", f), "from_path({}) failed: {}", target.display(), e),
+                };
+                let got: Option<std::io::ErrorKind> = if c.seek {
+                    match rdr.next() {
+                        Some(Ok(_)) => {}
+                        other => fail!(format!("{}/os-errors/first-record", f), "first record of a three-record file: {:?}", other.map(|x| x.map(|_| ()).map_err(|e| e.to_string()))),
+                    }
+                    match rdr.seek(&$m::Position::new(1, u64::MAX)) {
+                        Err($m::Error::Io(e)) => Some(e.kind()),
+                        Err(e) => fail!(format!("{}/os-errors/source-error-turned-into-other-error", f), "the failing seek of the file surfaced as {}", e),
+                        Ok(()) => None,
+                    }
+                } else {
+                    match rdr.next() {
+                        Some(Err($m::Error::Io(e))) => Some(e.kind()),
+                        Some(Err(e)) => fail!(format!("{}/os-errors/source-error-turned-into-other-error", f), "the failing read of the file surfaced as {}", e),
+                        Some(Ok(_)) => fail!(format!("{}/os-errors/record-from-nothing", f), "a record was returned although every read fails"),
+                        None => None,
+                    }
+                };
+                match got {
+                    None => fail!(format!("{}/os-errors/source-error-swallowed", f), "the operating system reports {:?} for this operation, the reader reported success / end of input", expected),
+                    Some(k) => ensure!(k == expected, format!("{}/os-errors/wrong-kind", f), "the operating system reports {:?} for this operation, the reader returned an I/O error of kind {:?}", expected, k),
+                }
+            }};
+        }
+        let r: CheckResult = (|| {
+            match c.format {
+                Format::Fasta => go!(fasta),
+                Format::Fastq => go!(fastq),
+            }
+            Ok(())
+        })();
+        let _ = std::fs::remove_dir_all(&base);
+        r
+    }
+}
 
 pub fn run_check(tier: Tier) -> i32 {
     let mut run = Run::new("C14", tier, "fault_enumeration");
     let p = Faults;
     run.replays("fault-enumeration", &p);
     run.generated("fault-enumeration", &p, tier.pick(150_000, 2_000_000));
+    let o = OsErrors;
+    run.replays("os-errors", &o);
+    run.generated("os-errors", &o, tier.pick(300, 3_000));
     run.finish(
         RULE,
         &[
@@ -214,5 +326,5 @@ pub fn run_check(tier: Tier) -> i32 {
 }
 
 pub fn replay(run: &mut Run, file: &std::path::Path) -> Option<bool> {
-    run.replay_file("fault-enumeration", &Faults, file, true)
+    run.replay_file("fault-enumeration", &Faults, file, true).or_else(|| run.replay_file("os-errors", &OsErrors, file, true))
 }
